@@ -5,13 +5,13 @@ EXTENDS Handshake, Sequences, IOUtils
 Rec == ndJsonDeserialize(IOEnv.TRACE)
 VARIABLES l, nviol
 tvars == <<hvars, l, nviol>>
-TraceInit == cid = "trusted" /\ sid = "trusted" /\ state = "start" /\ via = "raw" /\ l = 1 /\ nviol = 0
+TraceInit == cid = "trusted" /\ sid = "trusted" /\ ctrust = "T" /\ state = "start" /\ via = "raw" /\ l = 1 /\ nviol = 0
 Flag(k, kind) == PrintT(<<"VIOL", k, l, {"C15"}, kind>>) /\ nviol' = nviol + 1
 Check(e) ==
     IF e.ev # "tls" THEN nviol' = nviol
-    ELSE IF e.registered /\ ~MayRegister(e.client, e.server)
-    THEN Flag(e.case, "untrusted_pairing_registered_client_" \o e.client \o "_server_" \o e.server \o "_" \o e.via)
-    ELSE IF ~e.registered /\ MayRegister(e.client, e.server)
+    ELSE IF e.registered /\ ~MayRegister(e.client, e.server, e.trust)
+    THEN Flag(e.case, "untrusted_pairing_registered_client_" \o e.client \o "_server_" \o e.server \o "_trust_" \o e.trust \o "_" \o e.via)
+    ELSE IF ~e.registered /\ MayRegister(e.client, e.server, e.trust)
     THEN Flag(e.case, "trusted_pairing_refused_" \o e.via)
     ELSE nviol' = nviol
 TraceNext == /\ l <= Len(Rec) /\ l' = l + 1 /\ UNCHANGED hvars /\ Check(Rec[l])
